@@ -16,6 +16,7 @@ RULE = (
     "cache holding the right root key (network seams raise). Blobs rejected by the authentication checks are decrypted a second time in the same process (a retry must not succeed). Oracle: original plaintext | any exception | needs-network; different bytes is the violation. Distinct by (blob, mutation); non-trivial = the "
     "mutated bytes differ from the original."
     ' Also: public-key blobs under ECDH root keys whose key_info is replaced by a DH key blob with public value 0 / 1 / p-1 (forged for the degenerate shared secret); a reader who is not authorised for the SID (the DC answers with a public-key envelope) offered blobs re-keyed from that public key.'
+    ' Also pieces of the blob itself (ciphertext + tag, every DER node, tail, whole blob) appended / inserted behind the envelope / prepended; transplants are judged on a cache that has already opened every genuine blob.'
 )
 ASSUME = ["offline KeyCache with the matching root key; DNS/socket seams raise NeedsNetwork", "BudgetExceeded / hangs are C05's subject, not C04's"]
 BOUND = {"quick": "5 base blobs", "thorough": "33 base blobs"}
